@@ -132,19 +132,21 @@ func (g ABCIGenesis) Spec() GenesisSpec {
 
 // abciDriver generates and executes steps on a chain, recording the concrete history.
 type abciDriver struct {
-	t         *rapid.T
-	c         *Chain
-	gen       ABCIGenesis
-	hist      ConcreteHistory
-	log       []string
-	freshNo   int
-	created   []int // indices of FreshAcc that became vesting accounts
-	propIDs   []uint64
-	accepted  map[string]int // module -> accepted txs
-	rejected  int
-	passed    int
-	sigData   int
-	zeroStart int
+	t            *rapid.T
+	c            *Chain
+	gen          ABCIGenesis
+	hist         ConcreteHistory
+	log          []string
+	freshNo      int
+	failedExec   int
+	failedExecAt []int // indexes of the blocks whose EndBlock rolled a passed proposal back
+	created      []int // indices of FreshAcc that became vesting accounts
+	propIDs      []uint64
+	accepted     map[string]int // module -> accepted txs
+	rejected     int
+	passed       int
+	sigData      int
+	zeroStart    int
 	// afterBegin, when set, runs once on the open block's state right after BeginBlock
 	afterBegin func(c *Chain)
 }
@@ -252,7 +254,7 @@ func (d *abciDriver) genTx(label string) plannedTx {
 		// governance proposal carrying a custom-module parameter update
 		var inner sdk.Msg
 		what := ""
-		switch rapid.IntRange(0, 4).Draw(t, label+"_prop") {
+		switch rapid.IntRange(0, 5).Draw(t, label+"_prop") {
 		case 0, 1:
 			cur := app.CfeminterKeeper.GetMinterState(ctx).SequenceId
 			n := GenMinterCfg(t, 3, 30, 30)
@@ -272,18 +274,44 @@ func (d *abciDriver) genTx(label string) plannedTx {
 				inner = &mintertypes.MsgUpdateMintersParams{Authority: GovAuthority(), StartTime: p.StartTime, Minters: p.Minters}
 			}
 			what = "minter"
-		case 2, 3:
+		case 2, 3, 4:
 			o := integratedOpts()
 			o.AllowMainAlias = false
 			o.NoEscrowDest = true
 			n := GenDistrCfg(t, o)
 			inner = &distrtypes.MsgUpdateParams{Authority: GovAuthority(), SubDistributors: n.Build().SubDistributors}
 			what = "distributor"
+			// partial updates of the stored configuration (these handlers edit the stored value in place and
+			// validate afterwards; the drawn share may make the whole configuration invalid, so that the
+			// proposal passes the vote and fails when executed)
+			if cur := app.CfedistributorKeeper.GetParams(ctx).SubDistributors; len(cur) > 0 {
+				sd := cur[rapid.IntRange(0, len(cur)-1).Draw(t, label+"_psd")]
+				share := dec18([]string{"0", "100000000000000000", "500000000000000000", "990000000000000000", "1000000000000000000"}[rapid.IntRange(0, 4).Draw(t, label+"_pshare")])
+				switch rapid.IntRange(0, 2).Draw(t, label+"_partial") {
+				case 0:
+					inner = &distrtypes.MsgUpdateSubDistributorBurnShareParam{Authority: GovAuthority(), SubDistributorName: sd.Name, BurnShare: share}
+					what = "distributor_burn_share"
+				case 1:
+					if len(sd.Destinations.Shares) > 0 {
+						inner = &distrtypes.MsgUpdateSubDistributorDestinationShareParam{Authority: GovAuthority(), SubDistributorName: sd.Name,
+							DestinationName: sd.Destinations.Shares[rapid.IntRange(0, len(sd.Destinations.Shares)-1).Draw(t, label+"_pdest")].Name, Share: share}
+						what = "distributor_destination_share"
+					}
+				}
+			}
 		default:
 			inner = &vestingtypes.MsgUpdateDenomParam{Authority: GovAuthority(), Denom: "uatom"}
 			what = "vestingdenom"
 		}
-		m, err := govv1.NewMsgSubmitProposal([]sdk.Msg{inner}, sdk.NewCoins(sdk.NewInt64Coin(Denom, 10)), owner.Addr.String(), "")
+		msgs := []sdk.Msg{inner}
+		if rapid.IntRange(0, 3).Draw(t, label+"_failingTail") == 0 {
+			// a second message that fails when the proposal is executed (the governance account cannot pay
+			// it): the whole proposal, including the parameter update before it, is rolled back
+			msgs = append(msgs, &banktypes.MsgSend{FromAddress: GovAuthority(), ToAddress: owner.Addr.String(),
+				Amount: sdk.NewCoins(sdk.NewCoin(Denom, sdk.NewIntFromBigInt(pow10[30])))})
+			what += "+failing_tail"
+		}
+		m, err := govv1.NewMsgSubmitProposal(msgs, sdk.NewCoins(sdk.NewInt64Coin(Denom, 10)), owner.Addr.String(), "")
 		if err != nil {
 			panic(err)
 		}
@@ -362,6 +390,10 @@ func (d *abciDriver) genBlock(label string) BlockTrace {
 	d.c.End(&bt)
 	if strings.Contains(bt.EndEvs, "proposal_passed") {
 		d.passed++
+	}
+	if strings.Contains(bt.EndEvs, "proposal_failed") {
+		d.failedExec++ // passed the vote, rolled back at execution
+		d.failedExecAt = append(d.failedExecAt, len(d.hist.Blocks))
 	}
 	d.hist.Blocks = append(d.hist.Blocks, cb)
 	return bt
